@@ -156,6 +156,12 @@ def main():
             midx.append(drv.ask("hodograph", thr, kw["nodes"], kw["s"]))
         elif kind == "newton-curve":
             midx.append(drv.ask("newton_refine_curve", thr, kw["nodes"], kw["point"], kw["s"]))
+        elif kind == "jacobian-both":
+            midx.append(drv.ask("jacobian_both", kw["d"], kw["nodes"]))
+        elif kind == "jacobian-det":
+            midx.append([drv.ask("jacobian_det", thr, kw["d"], kw["nodes"], a, b) for a, b in kw["pts"]])
+        elif kind == "newton-triangle":
+            midx.append(drv.ask("newton_refine_triangle", thr, kw["d"], kw["nodes"], kw["x"], kw["y"], kw["s"], kw["t"]))
         else:
             midx.append(None)
     replies = drv.run()
@@ -292,9 +298,12 @@ def main():
                 if out.shape != (2 * dim, nn1):
                     res.failure("shape", "jacobian_both shape %r" % (out.shape,), rc)
                     continue
+                stm, modelm = replies[mi]
                 for r in range(dim):
                     for which, off in (("s", 0), ("t", dim)):
                         spec = X.tri_jacobian_s(nodes[r], d) if which == "s" else X.tri_jacobian_t(nodes[r], d)
+                        if stm != "ok" or modelm[off + r] != spec:
+                            res.mismatch("model-vs-spec:jacobian_both", rc, str(modelm[off + r])[:200] if stm == "ok" else stm, str(spec)[:200])
                         for cidx in range(nn1):
                             got = Fr(float(out[off + r, cidx]))
                             if got != spec[cidx] and abs(got - spec[cidx]) > 4 * U * d * 2 * max(abs(x) for x in nodes[r]):
@@ -308,6 +317,9 @@ def main():
                     xs, xt = tri_partial(nodes[0], d, s, t, "s"), tri_partial(nodes[0], d, s, t, "t")
                     ys, yt = tri_partial(nodes[1], d, s, t, "s"), tri_partial(nodes[1], d, s, t, "t")
                     spec = xs * yt - xt * ys
+                    stm, modelm = replies[mi[k]]
+                    if stm != "ok" or modelm != spec:
+                        res.mismatch("model-vs-spec:jacobian_det", rc, str(modelm), str(spec))
                     got = Fr(float(out[k]))
                     sc = (tri_partial_abs(nodes[0], d, s, t, "s") * tri_partial_abs(nodes[1], d, s, t, "t")
                           + tri_partial_abs(nodes[0], d, s, t, "t") * tri_partial_abs(nodes[1], d, s, t, "s")) if d > 1 else abs(xs * yt) + abs(xt * ys)
@@ -327,6 +339,9 @@ def main():
                     continue
                 e, f = x - bx, y - by
                 ds, dt = (yt * e - xt * f) / det, (xs * f - ys * e) / det
+                stm, modelm = replies[mi]
+                if stm != "ok" or modelm != [s + ds, t + dt]:
+                    res.mismatch("model-vs-spec:newton_refine_triangle", rc, str(modelm), str([s + ds, t + dt]))
                 rs, rt = Fr(float(gs)) - s, Fr(float(gt)) - t
                 scale = (abs(ds) + abs(dt)) + (abs(s) + abs(t)) * Fr(1, 2 ** 20)
                 cond = (abs(xs) + abs(xt) + abs(ys) + abs(yt)) ** 2 / abs(det)
